@@ -18,6 +18,7 @@ RULE = (
     "for one droplet, a reduced complete product for two droplets, radius lattices on polar/spherical grids and z/radius lattices on "
     "cylindrical grids; cases violating the stated preconditions (covered set not one face-connected component, knife-edge cell, droplet "
     "not inside a non-periodic box, winding) are screened and counted; non-trivial = droplet covers >= 3 cells"
+    " plus annular polar/spherical grids, radii up to the outer wall, cylindrical z ranges on both sides of 0, elongated boxes with pairs separated by multiples of the other axis' length, UnitGrid objects, centres one and two periods outside; histories (fresh fork): all ordered pairs/triples of grids of one family differing in one attribute, and four analyses on one shared grid object"
 )
 ASSUMPTIONS = [
     "placements restricted to the declared lattices (sub-cell offsets k/4 + seed phase); the half-cell bound is checked, not proved",
